@@ -480,6 +480,23 @@ func (s *Session) Packet(flags byte, payload []byte, padLen int) []byte {
 	return pkt
 }
 
+// RawPacket encodes a server->client packet whose header fields are given
+// verbatim (they need not agree with each other or with len(body)), encrypts
+// header and body with the session cipher and authenticates the result: a
+// packet with a VALID MAC and arbitrary contents, for robustness checks.
+func (s *Session) RawPacket(total, payload uint16, flags byte, body []byte) []byte {
+	pkt := make([]byte, MacLen+HdrLen+len(body))
+	b := pkt[MacLen:]
+	binary.BigEndian.PutUint16(b[0:], total)
+	binary.BigEndian.PutUint16(b[2:], payload)
+	b[4] = flags
+	copy(b[HdrLen:], body)
+	s.tx.XORKeyStream(b, b)
+	copy(pkt, mac128(s.Keys.S2CMac, b))
+	s.TxPkts++
+	return pkt
+}
+
 // Region of a packet for deliberate corruption.
 type Region int
 
